@@ -68,8 +68,10 @@ def mpc_hash(z):
     if sys.version_info >= (3, 2):
         re, im = z
         h = mpf_hash(re) + sys.hash_info.imag * mpf_hash(im)
-        # Need to reduce either module 2^32 or 2^64
-        h = h % (2**sys.hash_info.width)
+        # Signed reduction modulo 2^32 or 2^64, as for Python's complex
+        M = 2**(sys.hash_info.width - 1)
+        h = (h & (M - 1)) - (h & M)
+        if h == -1: h = -2
         return int(h)
     else:
         try:
